@@ -10,7 +10,9 @@
 
     startHunt mac v4    StartHunt(addr): `addr.MAC == nil || !addr.IP.Is4()` → ErrInvalidIP; under the
                         mutex: MAC already in the list → nothing, else insert and `go spoofLoop(addr)`
-    stopHunt mac        StopHunt(addr): delete(huntList, MAC) under the mutex
+    stopHunt mac ip     StopHunt(addr): delete(huntList, addr.MAC) under the mutex – the list is keyed by MAC;
+                        addr.IP (the host may have changed address since StartHunt, or share it with
+                        another hunted MAC) plays no role
     close               Close(): closed = true; close(closeChan)
     check i             loop i: Lock(); targetAddr, hunting := huntList[MAC]; Unlock()
     gate i              loop i evaluates `!hunting || h.closed` (reads `closed`)
@@ -18,7 +20,10 @@
     restore i           loop i writes the restoring ARP request (router's real MAC and IP) to its target
     forge i             loop i writes the forged announcement (router IP at our MAC) to its target
     wake i              the `select` returns (6 s ticker, or closeChan)
-    rxRequest smac tip  ProcessPacket, ARP request: under the mutex `_, hunting := huntList[SrcMAC]`;
+    rxRequest esrc smac toRouter
+                        ProcessPacket, ARP request with Ethernet source esrc and ARP sender hardware address
+                        smac (they differ when a bridge relays the request): under the mutex
+                        `_, hunting := huntList[arp.SrcMAC()]` – keyed on the ARP sender, not on esrc;
                         if hunting ∧ target IP = router IP a forged reply to smac is decided
     reply smac          that reply is written (after the mutex was released)
     rxProbe …           ProcessPacket, ARP probe: probe-reject reply iff the probing MAC holds a DHCP
@@ -57,10 +62,10 @@ structure State where
 
 inductive Event where
   | startHunt (mac : Bytes) (validV4 : Bool)
-  | stopHunt (mac : Bytes)
+  | stopHunt (mac : Bytes) (ip : Bytes)
   | close
   | check (i : Nat) | gate (i : Nat) | exitRead (i : Nat) | restore (i : Nat) | forge (i : Nat) | wake (i : Nat)
-  | rxRequest (smac : Bytes) (toRouter : Bool)
+  | rxRequest (esrc : Bytes) (smac : Bytes) (toRouter : Bool)
   | reply (smac : Bytes)
   | rxProbe (smac : Bytes) (offer : Option Bytes) (tip : Bytes) (tipInLan : Bool)
   | rxOther
@@ -92,7 +97,7 @@ def step (s : State) : Event → Option (State × Out)
     else if mac ∈ s.hunt then some (s, .startOk)
     else some ({ s with hunt := mac :: s.hunt, nloops := s.nloops + 1, started := mac :: s.started,
                         loops := updLoop s.loops s.nloops { mac := mac, pc := .check } }, .startOk)
-  | .stopHunt mac => some ({ s with hunt := s.hunt.erase mac }, .none)
+  | .stopHunt mac _ => some ({ s with hunt := s.hunt.erase mac }, .none)
   | .close => some ({ s with closed := true }, .none)
   | .check i =>
     if (s.loops i).pc = .check then some (setPc s i (.gate (decide ((s.loops i).mac ∈ s.hunt))), .none) else none
@@ -110,7 +115,7 @@ def step (s : State) : Event → Option (State × Out)
     if (s.loops i).pc = .forge then some (setPc s i .wait, .forged (s.loops i).mac) else none
   | .wake i =>
     if (s.loops i).pc = .wait then some (setPc s i .check, .none) else none
-  | .rxRequest smac toRouter =>
+  | .rxRequest _ smac toRouter =>
     if smac ∈ s.hunt ∧ toRouter then some ({ s with replies := smac :: s.replies }, .none) else some (s, .none)
   | .reply smac =>
     if smac ∈ s.replies then some ({ s with replies := s.replies.erase smac }, .spoofReply smac) else none
